@@ -176,7 +176,7 @@ func init() {
 			if idx < c12EnumN {
 				return c12EnumCase(idx)
 			}
-			c := &RCase{Src: genSrcPlan(r), Reads: genReads(r), PostEOF: genPostEOF(r), RDict: 4096, Single: r.Chance(1, 3)}
+			c := &RCase{Src: genSrcPlanZ(r), Reads: genReads(r), PostEOF: genPostEOF(r), RDict: 4096, Single: r.Chance(1, 3)}
 			m := genMulti(r, tier, true)
 			if r.Chance(1, 6) {
 				m.Parts = append(m.Parts, tinyStream(r.Intn(100)))
